@@ -863,6 +863,37 @@ mutp("C12", "seeded_c12b_confirm_at_buffer_time", "a tick is counted as received
 mutp("C13", "seeded_c13b_direct_server_goes_on_wire", "an independent event sent Direct(SERVER) is also queued for the network (seeded change c13b)",
      ["C13.R6/send_independent_event/Direct/guards"], "seeded/c13b/patch.diff")
 
+mutp("C03", "seeded_c03c_flush_skipped_when_nothing_buffered", "DeferredEntity::flush returns early when no insertion/removal is buffered: entities reserved by in-place entity mapping are not materialised (seeded change c03c)",
+     ["C03.R10/DeferredEntity::flush/flushes-world-unconditionally"], "seeded/c03c/patch.diff")
+mutp("C02", "seeded_c02c_expired_ack_lists_pooled_uncleared", "entity lists of expired mutate messages go back to the pool uncleared (seeded change c02c)",
+     ["C02.R7/shared::replication::client_ticks::EntityBuffer"], "seeded/c02c/patch.diff")
+mutp("C08", "seeded_c08c_hidden_guard_moved_to_insertion_branch", "the hidden guard covers only the insertion branch and lost visibility no longer forgets the tick: mutations of hidden entities are sent (seeded change c08c)",
+     ["C08.R1/server::collect_changes/add_component"], "seeded/c08c/patch.diff")
+mutp("C01", "seeded_c01c_removals_buffered_only_on_tick_frames", "buffer_removals runs only on tick frames: removal events older than two frames are lost (seeded change c01c)",
+     ["C01.R6/buffer_removals/every-frame-before-replication"], "seeded/c01c/patch.diff")
+mut("C03", "mutations_handler_returns_before_flush", "apply_mutations returns right after the component loop without flushing the entity", ["C03.R10/client::apply_mutations/flushes-its-entity"],
+    ("src/client.rs", """    if let Some(stats) = &mut params.stats {
+        stats.components_changed += components_count;
+    }
+
+    client_entity.flush();
+
+    Ok(())
+}
+
+/// Borrowed resources""", """    if let Some(stats) = &mut params.stats {
+        stats.components_changed += components_count;
+    } else {
+        return Ok(());
+    }
+
+    client_entity.flush();
+
+    Ok(())
+}
+
+/// Borrowed resources"""))
+
 # first-sight completeness (shared rule: C07.R6 / C03.R7 / C08.R6)
 mut("C07", "seeded_c07a_rate_limited_components_skipped", "rate-limited components are skipped before the per-client pass unless just added (late-authorized clients never get them)", ["C07.R6/collect_changes/every-component-reaches-clients"],
     ("src/server.rs", """                let ctx = SerializeCtx {
